@@ -15,6 +15,9 @@ TargetsW(w) == DOMAIN w.size
 NotConverged(w, o) ==
   {[f |-> "eligible-target-not-on-exactly-one-shard", t |-> t, holders |-> Cardinality(HoldersW(w, t))] :
       t \in {t \in TargetsW(w) : EligibleW(w, o, t) /\ Cardinality(HoldersW(w, t)) # 1}}
+  \cup {[f |-> "assigned-but-not-scraped", t |-> t] :
+      t \in {t \in TargetsW(w) : EligibleW(w, o, t) /\ Cardinality(HoldersW(w, t)) = 1 /\
+               \E i \in HoldersW(w, t) : \E x \in R(w.shards[i].status) : x.h = t /\ x.health # "up"}}
   \cup {[f |-> "transfer-pending", t |-> x.h, shard |-> i] : <<i, x>> \in
       {<<i, x>> \in (1..w.nsh) \X UNION {R(w.shards[i].status) : i \in 1..w.nsh} : x \in R(w.shards[i].status) /\ x.state # ""}}
   \cup {[f |-> "undiscovered-target-assigned", t |-> x.h, shard |-> i] : <<i, x>> \in
@@ -42,5 +45,6 @@ C03Run(run) ==
               /\ (Placement(run.steps[lastC - 1].world) # Placement(run.steps[lastC].world) \/ run.steps[lastC - 1].world.nsh # run.steps[lastC].world.nsh)
             THEN {[f |-> "converged-state-changed-by-a-further-cycle", at |-> lastC]} ELSE {})
      \cup {[f |-> "gap", t |-> t, at |-> k] : <<t, k>> \in
-             {<<t, k>> \in TargetsW(wend) \X (2..n) : t \in Gap(run.steps[k - 1].world, run.steps[k].world)}}
+             {<<t, k>> \in TargetsW(wend) \X (2..n) : run.steps[k].a \notin {"shrink", "recreate"}    \* losing a pod with its volume is the fault itself
+                                                        /\ t \in Gap(run.steps[k - 1].world, run.steps[k].world)}}
 =============================================================================
